@@ -50,7 +50,13 @@ TwoPartyVector(s, grp, seedR) ==
 
 FaultVector(s, grp, k) ==
   VectorD("newsa_fault", << >>,
-    << NewIkeSaFailStep("C09", s, grp, PubT(grp, XI), FillT("seeded", 32, 1), Zeros(8), Zeros(8), [mode |-> "fail", seed |-> 1, failat |-> k]),
+    << Step("dh_calc", "C09", FALSE, [grp |-> grp, peer |-> PubT(grp, XI), rand |-> [mode |-> "det", seed |-> 40 + k]], [panic |-> FALSE, err |-> FALSE]),
+       \* the same octets in short reads give the same exponent, hence the same public value and shared secret
+       Step("dh_calc", "C09", FALSE, [grp |-> grp, peer |-> PubT(grp, XI), rand |-> [mode |-> "det", seed |-> 40 + k, chunk |-> 3 + 20 * k]],
+            [panic |-> FALSE, err |-> FALSE, pub |-> Ref(1, "pub"), shared |-> Ref(1, "shared")]),
+       Step("dh_calc", "C09", FALSE, [grp |-> grp, peer |-> PubT(grp, XI), rand |-> [mode |-> "fail", seed |-> 40 + k, chunk |-> 50, failat |-> 1 + (k % 4)]],
+            [panic |-> FALSE, err |-> TRUE, haspub |-> FALSE]),
+       NewIkeSaFailStep("C09", s, grp, PubT(grp, XI), FillT("seeded", 32, 1), Zeros(8), Zeros(8), [mode |-> "fail", seed |-> 1, failat |-> k]),
        Step("dh_calc", "C09", FALSE, [grp |-> grp, peer |-> PubT(grp, XI), rand |-> [mode |-> "fail", seed |-> 2, failat |-> k]],
             IF k = 0 THEN [panic |-> FALSE, err |-> TRUE, haspub |-> FALSE, faultok |-> TRUE] ELSE [panic |-> FALSE, faultok |-> TRUE]) >>)
 
